@@ -2,6 +2,7 @@ import FractopoModel.Model.Validation
 import FractopoModel.Spec.Validators
 import FractopoModel.Generated.ValidatorTable
 import FractopoModel.Generated.ValidateStep
+import FractopoModel.Lemmas.CropHelpers
 /-!
 # C09 — validation only annotates
 
@@ -266,5 +267,12 @@ example :
     let cfg : Cfg := ⟨true, [], [], [], none, "EMPTY TARGET AREA"⟩
     (run O cfg false true [7, 8] "x") = (.emptyArea [(7, ["EMPTY TARGET AREA"]), (8, ["EMPTY TARGET AREA"])], "x") := by
   decide
+
+/-- **What "target area void of traces" means** (`is_empty_area`, regenerated): no area row is met by any of the traces its index
+window reports. This is the condition under which `run_validation(allow_empty_area=False)` takes the EMPTY TARGET AREA exit
+(`C09_empty_area`). -/
+theorem C09_generated_is_empty_area {A G : Type} (window : A → List Nat) (meets : G → A → Bool) (area : List A) (traces : List G) :
+    Gen.is_empty_area window meets area traces = !(area.any fun a => ((window a).filterMap fun i => traces[i]?).any fun tr => meets tr a) :=
+  CropH.generated_is_empty_area window meets area traces
 
 end C09
